@@ -15,7 +15,8 @@ import Bng.Proof.Nat44
 
   "Specified to act on" (`egressActsOn`, `ingressActsOn`, decidable, defined in the model file and used
   verbatim by the run-time monitor):
-    * common (`natCandidate`): at least 34 bytes, ethertype 0x0800, IP version 4, IHL ≥ 5, protocol
+    * common (`natCandidate`): at least 34 bytes, ethertype 0x0800, IP version 4, IHL ≥ 5, fragment offset 0 (a
+      later fragment has no L4 header: passed untouched since the fix of D-nat44-frag), protocol
       TCP/UDP/ICMP with the 20/8/8 bytes of L4 header the program uses inside the frame;
     * egress: additionally the source address is private (RFC1918 / 100.64/10) and has a `subscriber_nat`
       entry (a NAT allocation exists for the packet);
